@@ -209,10 +209,14 @@ func C09_upgrade_pairs() {
 	var u Upgrader
 	objected := false
 	cbStatus := 0
+	noReason := false
 	reject := func() error {
 		objected = true
 		if cbStatus == 500 {
 			return vRejectErr{}
+		}
+		if cbStatus == 403 && noReason { // a rejection without a reason: the error text, hence the body, is empty
+			return RejectConnectionError(RejectionStatus(cbStatus), RejectionHeader(HandshakeHeaderString("X-Why: because\r\n")))
 		}
 		if cbStatus == 0 { // a rejection that names no status
 			return RejectConnectionError(RejectionReason("nope"), RejectionHeader(HandshakeHeaderString("X-Why: because\r\n")))
@@ -225,6 +229,7 @@ func C09_upgrade_pairs() {
 	}
 	if cb > 0 {
 		cbStatus = []int{403, 500, 0}[vChoose("cbstatus", 3)]
+		noReason = cbStatus == 403 && vChoose("noreason", 2) == 1
 	}
 	var sawURI, sawHost []byte
 	u.OnRequest = func(uri []byte) error {
@@ -353,6 +358,11 @@ func C09_upgrade_pairs() {
 	for _, c := range []byte(cl) {
 		want = want*10 + int(c-'0')
 	}
+	digits := len(cl) > 0
+	for _, c := range []byte(cl) {
+		digits = digits && c >= '0' && c <= '9'
+	}
+	vAssert(digits, "pairs.content_length_is_a_number")
 	vAssert(vAnd(n == 1, want == len(r.body)), "pairs.content_length_matches_body")
 	vAssert(string(r.body) == err.Error(), "pairs.body_is_error_text")
 }
